@@ -13,10 +13,20 @@
 
    [ffin] = PrimFloat.is_finite, [f2r] = real value (Model/Binary64.v); [pairfin p] = both components finite,
    [pair2r p] = (f2r (fst p), f2r (snd p)), [unit_term x] = finite with value in [0, 1] (Proofs/Binary64Pdf.v).
-   Axioms: the standard library's FloatAxioms (specification of the primitives), through Flocq's IEEE754/PrimFloat.v. *)
+   Axioms: the standard library's FloatAxioms (specification of the primitives), through Flocq's IEEE754/PrimFloat.v.
+
+   FROM rnd64 TO THE CLASS [rounding].  rnd64 is not in the class (it rounds 2^-1076 to 0), rnd64x (no underflow) is, and
+   the theorems of Props/C12_binary64.v are about rnd64x.  The two roundings NEVER differ on a sum or difference of
+   binary64 numbers, nor on an integer multiple of one ([C12_binary64_agree_ops]: a result below 2^-1022 is a multiple
+   of 2^-1074, exact in both formats); they can differ only where a DIVISION has a non-zero exact quotient below
+   2^-1022.  Hence [C12_binary64_agree_calculate_pdf]: calculate_pdf at RndOps rnd64 = calculate_pdf at RndOps rnd64x
+   unless one of its 2 n + 1 divisions underflows ([normal64 t] := t = 0 \/ 2^-1022 <= |t|), and the capstone
+   [C12_binary64_run_float_facts]: under the same condition the FLOATS returned by the PrimFloat run satisfy
+   1 <= density <= 7994, 0 <= cost < density (as PrimFloat.ltb), and a strictly smaller density implies a strictly
+   smaller unmapped value (as PrimFloat.ltb) -- the statements of Props/C12_binary64.v about the bit-exact run. *)
 From Coq Require Import Reals List ZArith Floats.
-From OPF Require Import Base.NumOps Base.NumOpsRnd Model.Pdf Model.Binary64 Proofs.Binary64Pdf
-  Proofs.Binary64PdfExample.
+From OPF Require Import Base.NumOps Base.NumOpsRnd Model.Pdf Proofs.PdfRndBase Model.Binary64 Proofs.Binary64Pdf
+  Proofs.Binary64PdfExample Proofs.Binary64Agree Proofs.Binary64AgreeExample.
 Import ListNotations.
 Local Open Scope R_scope.
 
@@ -92,3 +102,75 @@ Theorem C12_binary64_run_example :
      [(f2r 1%float, f2r 0%float); (f2r 1000%float, f2r 999%float)]) /\
   f2r 0.125%float = 1 / 8 /\ f2r 1000%float = 1000.
 Proof. exact (conj eq_refl (conj (fun i l => eq_refl) exf_run)). Qed.
+
+(* ---------- rnd64 versus rnd64x ---------- *)
+Theorem C12_binary64_agree_defs :
+  (forall t, fmt64 t <-> rnd64 t = t) /\ (forall t, agree64 t <-> rnd64 t = rnd64x t) /\
+  (forall t, normal64 t <-> t = 0 \/ / 2 ^ 1022 <= Rabs t) /\
+  fzz = (PrimFloat.zero, PrimFloat.zero) /\
+  (forall (x : PrimFloat.float) t, fmt64 (f2r x) /\ fmt64 (rnd64 t)).
+Proof.
+  exact (conj (fun t => conj (fun H => H) (fun H => H)) (conj (fun t => conj (fun H => H) (fun H => H))
+        (conj (fun t => conj (fun H => H) (fun H => H)) (conj eq_refl (fun x t => conj (fmt64_f2r x) (fmt64_rnd64 t)))))).
+Qed.
+
+Theorem C12_binary64_agree_ops :
+  (forall t, normal64 t -> agree64 t) /\ (forall t, fmt64 t -> agree64 t) /\
+  (forall a b, fmt64 a -> fmt64 b -> agree64 (a + b) /\ agree64 (a - b)) /\
+  (forall z a, fmt64 a -> agree64 (IZR z * a)).
+Proof.
+  exact (conj agree64_normal (conj agree64_format
+        (conj (fun a b Ha Hb => conj (agree64_add a b Ha Hb) (agree64_sub a b Ha Hb)) agree64_mulZ))).
+Qed.
+
+Theorem C12_binary64_agree_calculate_pdf (fmax : R) (n k : nat) (gdens : R) (e : nat -> nat -> R) :
+  fmt64 fmax -> fmt64 gdens ->
+  (forall i l, (i < n)%nat -> (l < k)%nat -> fmt64 (e i l)) ->
+  agree64 (rnd64 (2 * gdens) / 9) ->
+  (forall i, (i < n)%nat -> agree64 (PdfRndBase.rsum rnd64 (map (e i) (seq 0 k)) / IZR (Z.of_nat (S k)))) ->
+  (forall c mn mx dc, calculate_pdf (RndOps rnd64) fmax 1000 n k gdens e = (c, mn, mx, dc) -> mn <> mx ->
+     forall i, (i < n)%nat ->
+       agree64 (rnd64 (999 * rnd64 (pdf_value (RndOps rnd64) k (e i) - mn)) / rnd64 (mx - mn))) ->
+  calculate_pdf (RndOps rnd64) fmax 1000 n k gdens e = calculate_pdf (RndOps rnd64x) fmax 1000 n k gdens e.
+Proof. exact (calculate_pdf_agree fmax n k gdens e). Qed.
+
+(* the capstone: what holds of the floats returned by the PrimFloat run *)
+Theorem C12_binary64_run_float_facts (fmax gdens : PrimFloat.float) (n k : nat) (e : nat -> nat -> PrimFloat.float)
+    (c mn mx : PrimFloat.float) (dc : list (PrimFloat.float * PrimFloat.float)) :
+  ffin fmax = true -> 1 <= f2r fmax ->
+  ffin gdens = true -> fits64 (2 * f2r gdens) ->
+  (Z.of_nat (S k) <= 2 ^ 53)%Z ->
+  (forall i l, (i < n)%nat -> (l < k)%nat -> ffin (e i l) = true /\ 0 <= f2r (e i l) <= 1) ->
+  calculate_pdf FOps fmax 1000 n k gdens e = (c, mn, mx, dc) ->
+  (* no division underflows: 2 * gdens / 9; each sum / (k + 1); each scaled numerator / (max - min) *)
+  normal64 (rnd64 (2 * f2r gdens) / 9) ->
+  (forall i, (i < n)%nat ->
+     normal64 (PdfRndBase.rsum rnd64 (map (fun l => f2r (e i l)) (seq 0 k)) / IZR (Z.of_nat (S k)))) ->
+  (f2r mn <> f2r mx -> forall i, (i < n)%nat ->
+     normal64 (rnd64 (999 * rnd64 (f2r (pdf_value FOps k (e i)) - f2r mn)) / rnd64 (f2r mx - f2r mn))) ->
+  calculate_pdf (RndOps rnd64x) (f2r fmax) 1000 n k (f2r gdens) (fun i l => f2r (e i l))
+  = (f2r c, f2r mn, f2r mx, map pair2r dc) /\
+  length dc = n /\
+  (forall i, (i < n)%nat ->
+     f2r (pdf_value FOps k (e i)) = pdf_value (RndOps rnd64x) k (fun l => f2r (e i l))) /\
+  ((1 <= n)%nat -> forall i, (i < n)%nat ->
+     1 <= f2r (fst (nth i dc fzz)) <= 7994 /\ 0 <= f2r (snd (nth i dc fzz)) /\
+     PrimFloat.ltb (snd (nth i dc fzz)) (fst (nth i dc fzz)) = true) /\
+  ((1 <= n)%nat -> forall i j, (i < n)%nat -> (j < n)%nat ->
+     PrimFloat.ltb (fst (nth i dc fzz)) (fst (nth j dc fzz)) = true ->
+     PrimFloat.ltb (pdf_value FOps k (e i)) (pdf_value FOps k (e j)) = true).
+Proof. exact (calculate_pdf_float_facts fmax gdens n k e c mn mx dc). Qed.
+
+(* non-vacuity: the example run above has no underflowing division; the facts hold of the floats it returned *)
+Theorem C12_binary64_run_float_facts_example :
+  normal64 (rnd64 (2 * f2r 4.5%float) / 9) /\
+  (forall i, (i < 2)%nat ->
+     normal64 (PdfRndBase.rsum rnd64 (map (fun l => f2r (exf_e i l)) (seq 0 1)) / IZR (Z.of_nat 2))) /\
+  (f2r 0.125%float <> f2r 0.375%float -> forall i, (i < 2)%nat ->
+     normal64 (rnd64 (999 * rnd64 (f2r (pdf_value FOps 1 (exf_e i)) - f2r 0.125%float))
+               / rnd64 (f2r 0.375%float - f2r 0.125%float))) /\
+  (forall i, (i < 2)%nat ->
+     1 <= f2r (fst (nth i [(1, 0); (1000, 999)]%float fzz)) <= 7994 /\
+     0 <= f2r (snd (nth i [(1, 0); (1000, 999)]%float fzz)) /\
+     PrimFloat.ltb (snd (nth i [(1, 0); (1000, 999)]%float fzz)) (fst (nth i [(1, 0); (1000, 999)]%float fzz)) = true).
+Proof. exact exf_facts. Qed.
